@@ -207,6 +207,27 @@ def check_e2e(case, rec):
     ok, lazy = rec.guard('open', lambda: TdmsFile.open(io.BytesIO(blob)))
     if ok:
         with lazy:
+            # whole-file streaming: every chunk is addressed by the same (group, channel) names
+            try:
+                acc = {pc: [] for pc in pairs}
+                for chunk in lazy.data_chunks():
+                    listed = [(g.name, c.name) for g in chunk.groups() for c in g.channels()]
+                    if sorted(listed) != sorted(pairs):
+                        rec.violation('reported_once', 'a file chunk lists channels %r, written %r' % (listed, pairs))
+                        break
+                    for (g, c) in pairs:
+                        cc = chunk[g][c]
+                        if cc.offset != len(acc[(g, c)]):
+                            rec.violation('confused:chunks', 'file chunk of (%r, %r) reports offset %d after %d values' % (
+                                g, c, cc.offset, len(acc[(g, c)])))
+                        acc[(g, c)].extend(int(x) for x in cc[:])
+                for pc in pairs:
+                    if acc[pc] != values[pc]:
+                        rec.violation('confused:chunks', 'TdmsFile.data_chunks(): channel %r delivers %r, written %r' % (
+                            pc, acc[pc], values[pc]))
+                        break
+            except Exception as e:      # noqa
+                rec.violation('lazy_lookup:raised', 'file chunks: %s' % describe_exc(e), key=exc_key(e))
             for (g, c) in pairs:
                 want = values[(g, c)]
                 try:
